@@ -157,12 +157,47 @@ fn documents(thorough: bool) -> Vec<String> {
     docs
 }
 
+/// Documents for the stdin read-boundary family: (name, document, bytes per write).
+fn stdin_jobs(thorough: bool) -> Vec<(String, String, Option<usize>)> {
+    let mut jobs: Vec<(String, String, Option<usize>)> = vec![];
+    for ch in ["\u{e9}", "\u{20ac}", "\u{1f600}"] {
+        let c = match ch {
+            "\u{e9}" => '\u{e9}',
+            "\u{20ac}" => '\u{20ac}',
+            _ => '\u{1f600}',
+        };
+        for pad in 0..c.len_utf8() {
+            let n = (if thorough { 140_000 } else { 70_000 }) / c.len_utf8();
+            let body: String = "a".repeat(pad) + &std::iter::repeat(c).take(n).collect::<String>();
+            jobs.push((format!("large:{}:pad{}:string", ch, pad), format!("{{\"x\": \"{}\"}}", body), None));
+            jobs.push((format!("large:{}:pad{}:key", ch, pad), format!("{{\"x\": {{\"{}\": \"v\"}}}}", body), None));
+            let many: Vec<String> = (0..n / 10).map(|_| format!("\"{}\"", std::iter::repeat(c).take(10).collect::<String>())).collect();
+            jobs.push((format!("large:{}:pad{}:list", ch, pad), format!("{{\"x\": [\"{}\", {}]}}", "a".repeat(pad), many.join(",")), None));
+        }
+    }
+    for k in 1..=3usize {
+        jobs.push((format!("chunked:{}", k), "{\"x\": [\"\u{e9}\u{20ac}\u{1f600}\", {\"\u{1f600}\u{e9}\": \"a\u{20ac}\"}]}".to_string(), Some(k)));
+    }
+    jobs
+}
+
 pub fn run(ctx: &Ctx, replay: Option<&J>) -> i32 {
     if let Some(r) = replay {
         if let Some(doc) = r["case"]["doc"].as_str() {
             let res = run_blots(&["output x = inputs.x".into(), "-i".into(), doc.into()], None, None);
             println!("blots 'output x = inputs.x' -i {:?}\n-> {}", doc, res.describe());
             return 1;
+        }
+        if let Some(name) = r["case"]["stdin_doc"].as_str() {
+            for (n, doc, chunk) in stdin_jobs(true).into_iter().chain(stdin_jobs(false)) {
+                if n == name {
+                    let res = crate::proc::run_cmd_chunked(&crate::proc::blots_bin(), &["output x = inputs.x".into()], Some(doc.as_bytes()), None, std::time::Duration::from_secs(60), chunk.map(|k| (k, std::time::Duration::from_millis(3))));
+                    let same = serde_json::from_str::<J>(&doc).ok() == serde_json::from_str::<J>(res.stdout.trim()).ok();
+                    println!("blots 'output x = inputs.x' < {} ({} bytes): exit={:?} echo identical: {}", name, doc.len(), res.code, same);
+                    return if same { 0 } else { 1 };
+                }
+            }
+            return 2;
         }
         let j: J = r["case"]["json"].clone();
         let v = SV::from_json(&j);
@@ -214,6 +249,35 @@ pub fn run(ctx: &Ctx, replay: Option<&J>) -> i32 {
         let r2 = run_blots(&["output x = inputs.x".into()], Some(r1.stdout.as_bytes()), None);
         (String::new(), Some((r1.stdout.trim().to_string(), if r2.code == Some(0) { r2.stdout.trim().to_string() } else { format!("<stage 2 failed: {}>", r2.describe()) })))
     });
+    // ---- the environment's answers on the stdin path: where the reader's `read` calls end.
+    // (a) documents larger than every plausible read buffer (512 B .. 64 KiB) whose multi-byte
+    //     characters sit at every phase relative to every power-of-two offset;
+    // (b) a short document delivered 1, 2, 3 bytes at a time, so that every read ends inside a character
+    {
+        let jobs = stdin_jobs(thorough);
+        let outs: Vec<crate::proc::CliResult> = par_map(&jobs, |(_, doc, chunk)| {
+            crate::proc::run_cmd_chunked(&crate::proc::blots_bin(), &["output x = inputs.x".into()], Some(doc.as_bytes()), None, std::time::Duration::from_secs(60), chunk.map(|k| (k, std::time::Duration::from_millis(3))))
+        });
+        for ((name, doc, _), r) in jobs.iter().zip(outs.iter()) {
+            ctx.count(1);
+            ctx.nontrivial(name);
+            ctx.outcome("stdin-read-boundaries");
+            // the echo must be the same JSON value: compare parsed documents (strings only, no numbers involved beyond 1)
+            let want: Option<J> = serde_json::from_str(doc).ok();
+            let got: Option<J> = serde_json::from_str(r.stdout.trim()).ok();
+            if r.code != Some(0) || want.is_none() || want != got {
+                let at = want.as_ref().zip(got.as_ref()).map(|(w, g)| first_difference(&w.to_string(), &g.to_string())).unwrap_or_default();
+                ctx.violation(Violation {
+                    kind: "stdin-read-boundary".into(),
+                    class: name.split(':').next().unwrap_or("stdin").to_string(),
+                    input: format!("{} ({} bytes on stdin)", name, doc.len()),
+                    expected: "output x = inputs.x reproduces the document".into(),
+                    observed: format!("exit={:?} {} stderr={}", r.code, at, truncate(&r.stderr, 200)),
+                    case: json!({"stdin_doc": name}),
+                });
+            }
+        }
+    }
     let mut requests = vec![];
     let mut req_docs = vec![];
     for (doc, (err, res)) in docs.iter().zip(results.iter()) {
@@ -280,7 +344,7 @@ pub fn run(ctx: &Ctx, replay: Option<&J>) -> i32 {
     finish(
         ctx,
         "exploration",
-        "direction 1: every leaf (grid spread of finite doubles incl. -0, 5e-324, f64::MAX, 2^53+1; every string of length <= 2/3 over the 24-code-point alphabet plus BOM / surrogate-boundary / escape-looking strings; booleans, null), each leaf in a list and under every key of a 39-key pool (empty, numeric-looking, composed/decomposed, trailing NUL, quotes, __proto__), every ordered key pair, leaf pairs, depth-3/4 nestings and depth-6 spines: value -> from_value -> to_json -> text -> from_json -> to_value, compared by .== in one heap and structurally by bits / code points; direction 2: documents (number spellings incl. 17+ digits, exponents, > 2^64 integers; escapes; nested, duplicate keys) through the real `blots 'output x = inputs.x' -i doc` and a second process reading the first one's stdout, compared by an independent JSON oracle; distinct = distinct values / documents",
+        "direction 1: every leaf (grid spread of finite doubles incl. -0, 5e-324, f64::MAX, 2^53+1; every string of length <= 2/3 over the 24-code-point alphabet plus BOM / surrogate-boundary / escape-looking strings; booleans, null), each leaf in a list and under every key of a 39-key pool (empty, numeric-looking, composed/decomposed, trailing NUL, quotes, __proto__), every ordered key pair, leaf pairs, depth-3/4 nestings and depth-6 spines: value -> from_value -> to_json -> text -> from_json -> to_value, compared by .== in one heap and structurally by bits / code points; direction 2: documents (number spellings incl. 17+ digits, exponents, > 2^64 integers; escapes; nested, duplicate keys) through the real `blots 'output x = inputs.x' -i doc` and a second process reading the first one's stdout, compared by an independent JSON oracle; stdin read boundaries: 70/140 KB documents (string, key, list of strings) of 2-, 3- and 4-byte characters at every phase relative to every power-of-two offset, and a short document delivered 1, 2 and 3 bytes at a time; distinct = distinct values / documents",
         true,
         None,
     )
@@ -288,6 +352,13 @@ pub fn run(ctx: &Ctx, replay: Option<&J>) -> i32 {
 
 /// Reduce a document text to `{"x": <member x>}` textually via serde (numbers keep their text
 /// because the comparison is done by the oracle on the original spelling when possible).
+fn first_difference(a: &str, b: &str) -> String {
+    let (ac, bc): (Vec<char>, Vec<char>) = (a.chars().collect(), b.chars().collect());
+    let i = ac.iter().zip(bc.iter()).position(|(x, y)| x != y).unwrap_or(ac.len().min(bc.len()));
+    let show = |v: &Vec<char>| v.iter().skip(i.saturating_sub(3)).take(8).collect::<String>();
+    format!("first difference at character {}: expected ...{:?}... observed ...{:?}...", i, show(&ac), show(&bc))
+}
+
 fn project_x(doc: &str) -> String {
     // keep the original text when the document has only the member x (the common case)
     match serde_json::from_str::<J>(doc) {
